@@ -2432,7 +2432,7 @@ class C17(Check):
             d = rng.randint(0, 3)
             N = rng.randint(1, 4)
             M = rng.randint(1, 2)
-            r = rng.randint(1, 3)
+            r = rng.randint(1, 3) + d      # enough sample points inside every interval for all N+d coefficients to show
             meth = rng.choice(['ms', 'dc'])
             gk = rng.choice(['uniform', 'geometric'])
             with B.quiet():
